@@ -41,7 +41,7 @@ CASE_TIMEOUT = 300
 LENS = [1, 2, 7, 50, 101]
 HORIZONS = [0.05, 1.0, 2.5]
 FPS = [1, 10, 50, 1000]
-KINDS = ["rb", "pm", "mframe", "box", "ball", "contact", "contact0", "fd", "fd_wedge", "spring", "force", "bforce", "moment", "bmoment", "pmlist", "contactlist",
+KINDS = ["rb", "pm", "mframe", "box", "ball", "contact", "contact_m", "contact0", "fd", "fd_wedge", "spring", "force", "bforce", "moment", "bmoment", "pmlist", "contactlist",
          "rod_cl", "rod_nv_wedge", "rod_nv_quad", "rod_nv_rect", "rod_volume"]
 T0 = 0.3
 VTK_VERTEX, VTK_LINE, VTK_TRIANGLE = 1, 3, 5
@@ -156,6 +156,8 @@ def _scene(seed):
         o["contact"] = Sphere2Plane(o["plane"], o["ball"], mu=0.3, r=P["ball_R"], e_N=0.0, e_F=0.0, name="contact")
         o["contact0"] = Sphere2Plane(system.origin, o["pm"], mu=0, r=P["c0_r"], e_N=0.0, name="contact0")
         o["contact2"] = Sphere2Plane(o["plane"], o["rb"], mu=0.5, r=0.4, e_N=0.0, e_F=0.0, name="contact2")
+        # contact against the moving (translating, tilted, spinning) frame: plane-side data must follow the frame (seeded C29-f)
+        o["contact_m"] = Sphere2Plane(o["mframe"], o["rb"], mu=0.5, r=0.4, e_N=0.0, e_F=0.0, name="contact_m")
         o["fd"] = FixedDistance(o["pm2"], o["rb"], B1_r_P1J1=P["fd_B1"].copy(), B2_r_P2J2=P["fd_B2"].copy())
         o["fd"].name = "fd"
         tpi = TwoPointInteraction(o["rb"], o["box"], B_r_CP1=P["tpi_B1"].copy(), B_r_CP2=P["tpi_B2"].copy())
@@ -164,7 +166,7 @@ def _scene(seed):
         o["bforce"] = B_Force(_bforce_t, o["box"], B_r_CP=P["bforce_B"].copy(), name="bforce")
         o["moment"] = Moment(_moment_t, o["rb"], name="moment")
         o["bmoment"] = B_Moment(_moment_t, o["box"], name="bmoment")
-        order = ["rb", "pm", "pm2", "mframe", "box", "ball", "plane", "contact", "contact0", "contact2", "fd", "spring", "force", "bforce", "moment", "bmoment"]
+        order = ["rb", "pm", "pm2", "mframe", "box", "ball", "plane", "contact", "contact0", "contact2", "contact_m", "fd", "spring", "force", "bforce", "moment", "bmoment"]
         system.add(*[o[k] for k in order])
         system.assemble(options=SolverOptions(compute_consistent_initial_conditions=False))
     return system, o
@@ -353,6 +355,20 @@ def _expect(kind, o, row):
         PN, PF = row["P_N"][c.la_NDOF], row["P_F"][c.la_FDOF]
         E["point_data"] = {"v_Ci": [vc, np.zeros(3)], "Omega": [om, np.zeros(3)], "n": [-nrm, nrm], "t1": [-t1, t1], "t2": [-t2, t2], "P_N": [PN, PN], "P_F": [PF, PF]}
         E["cell_data"] = {"g_N": [[d - R]], "g_N_dot": [[nrm @ v]], "gamma_F": [[t1 @ vc, t2 @ vc]]}
+    elif kind == "contact_m":
+        r, A, v, om = _rbs(o, "rb", q, u)
+        Af, rQ, vQ, Om, R = _mf_A(t), _mf_r(t), _mf_v(t), np.array([0.0, 0.0, 0.7]), 0.4
+        nrm, t1, t2 = Af[:, 2], Af[:, 0], Af[:, 1]
+        c = o["contact_m"]
+        d = nrm @ (r - rQ)
+        vc = v + np.cross(om, -R * nrm)
+        vc2 = vQ + np.cross(Om, r - d * nrm - rQ)   # velocity of the frame-fixed point under the sphere
+        E["points"] = [r - R * nrm, r - d * nrm]
+        E["cells"] = [(VTK_LINE, [0, 1])]
+        PN, PF = row["P_N"][c.la_NDOF], row["P_F"][c.la_FDOF]
+        E["point_data"] = {"v_Ci": [vc, vc2], "Omega": [om, Om], "n": [-nrm, nrm], "t1": [-t1, t1], "t2": [-t2, t2], "P_N": [PN, PN], "P_F": [PF, PF]}
+        # rates from the contact's own kinematics (their correctness is C06's subject)
+        E["cell_data"] = {"g_N": [[d - R]], "g_N_dot": [[float(np.ravel(c.g_N_dot(t, q[c.qDOF], u[c.uDOF]))[0])]], "gamma_F": [list(np.ravel(c.gamma_F(t, q[c.qDOF], u[c.uDOF])))]}
     elif kind == "contact0":
         b, c = o["pm"], o["contact0"]
         r, v = q[b.qDOF], u[b.uDOF]
